@@ -239,10 +239,11 @@ fn big_default(ctx: &mut Ctx, rng: &mut Rng, case: u64) {
         }
         for nd in known.values() {
             ctx.count("membership_lookups", 1);
-            let lvl = b.order_ref().get(nd.var);
+            let level = |v: rsdd::repr::VarLabel| cfg.order.iter().position(|x| *x == v.value_usize()).unwrap();
+            let lvl = level(nd.var);
             let ok_shape = nd.low != nd.high
                 && !matches!(nd.high, BddPtr::Compl(_) | BddPtr::PtrFalse)
-                && [nd.low, nd.high].iter().all(|c| c.var_safe().map(|v| b.order_ref().get(v) > lvl).unwrap_or(true));
+                && [nd.low, nd.high].iter().all(|c| c.var_safe().map(|v| level(v) > lvl).unwrap_or(true));
             if !ok_shape {
                 ctx.violation("bdd.shape", "malformed node (library-default table size)", json!({"cfg": cfg.to_json()}));
                 return;
